@@ -20,7 +20,7 @@ ID = "C17"
 LEVEL = "model_checking"
 RULE = ("parameter sets: for each of the 8 operations every boolean flag setting x every optional parameter present/absent "
         "(47 sets); tables: every table of 1-3 rows over trial_type in {a,b,n/a} x code in {1,2} x response_time in "
-        "{0.3,n/a} with fixed increasing onsets and durations in {0.5,n/a}; operation lists: all single operations and all "
+        "{0.3,n/a} with fixed increasing onsets and durations in {0.5,n/a} (+ for merge_consecutive every run pattern of 4-5 rows over {a,b}); operation lists: all single operations and all "
         "ordered pairs (thorough: triples over a 12-set subset); dispatcher histories: every sequence of <= 3 tables from 4 (one with an extra column) "
         "through one dispatcher.  state = (operation list, table); transition = one run_operations call; non-trivial = the "
         "reference result differs from the input table")
@@ -442,6 +442,18 @@ def worker_single(rec, shard, nshards, scratch, max_rows, thorough, seed):
             if msgs:
                 rec.violation("C17:harness-parameter-set-refused", op=o, messages=msgs)
     cases = [(i, j) for i in range(len(psets)) for j in range(len(tabs))]
+    # merge_consecutive looks at runs of rows: four and five rows give a lone run before / after / between merged runs
+    runs = []
+    for n in (4, 5):
+        for tt in itertools.product(["a", "b"], repeat=n):
+            for code in (("1",) * n, tuple("12"[i % 2] for i in range(n))):
+                rows = [{"onset": str(1.0 + 1.5 * i), "duration": "0.5", "trial_type": tt[i], "code": code[i],
+                         "response_time": "0.3"} for i in range(n)]
+                runs.append((tabs[0][0], rows))
+    base = len(tabs)
+    tabs = tabs + runs
+    cases += [(i, base + j) for i in range(len(psets)) if psets[i]["operation"] == "merge_consecutive"
+              for j in range(len(runs))]
     for ci in core.shard_order(len(cases), shard, nshards, seed):
         i, j = cases[ci]
         cols, rows = tabs[j]
